@@ -851,8 +851,32 @@ func (x *Exec) appendStructs(st *State, in *ssa.Call, args []Val) {
 	x.unsup(in.Pos(), "append on slices of structs")
 }
 
+// doCopy models copy(dst, src) for slices of scalars, strings or slices
+// (memmove semantics: the source is read before anything is written).
 func (x *Exec) doCopy(st *State, in *ssa.Call, args []Val) {
-	x.unsup(in.Pos(), "copy builtin")
+	dt, ok1 := in.Common().Args[0].Type().Underlying().(*types.Slice)
+	_, ok2 := in.Common().Args[1].Type().Underlying().(*types.Slice)
+	if !ok1 || !ok2 || isStruct(dt.Elem()) || isArray(dt.Elem()) {
+		x.unsup(in.Pos(), "copy builtin on %s", in.Common().Args[0].Type())
+	}
+	es := x.P.sortOf(dt.Elem())
+	hn := "E!" + string(es)
+	d, s := args[0].T, args[1].T
+	n := x.fresh("copyn", SInt)
+	st.assume(Eq(n, Ite(Le(SlLen(d), SlLen(s)), SlLen(d), SlLen(s))))
+	h := x.heap(st, hn, es)
+	rowSort := Sort(fmt.Sprintf("(Array Int %s)", es))
+	oldD := readArr(h, SlArr(d), rowSort)
+	oldS := readArr(h, SlArr(s), rowSort)
+	row := x.fresh("cpyrow", rowSort)
+	k := "k!c"
+	inRange := fmt.Sprintf("(and (<= %s %s) (< %s (+ %s %s)))", SlOff(d).S, k, k, SlOff(d).S, n.S)
+	st.assume(Term{fmt.Sprintf("(forall ((%s Int)) (! (=> %s (= (select %s %s) (select %s (+ (- %s %s) %s)))) :pattern ((select %s %s))))",
+		k, inRange, row.S, k, oldS.S, k, SlOff(d).S, SlOff(s).S, row.S, k), SBool})
+	st.assume(Term{fmt.Sprintf("(forall ((%s Int)) (! (=> (not %s) (= (select %s %s) (select %s %s))) :pattern ((select %s %s))))",
+		k, inRange, row.S, k, oldD.S, k, row.S, k), SBool})
+	st.heaps[hn] = Store(h, SlArr(d), row)
+	x.setVal(st, in, Val{T: n, Ty: in.Type()})
 }
 
 // ---------- interface invocations (trusted net/http model) ----------
